@@ -42,7 +42,7 @@ man = {
     "engines": [{"name": "vf", "path": "/verif/vf", "serves_properties": sorted(CHECKS), "kind_free_text": "Hypothesis 6.168 property-based testing (sharded, seeded via VERIF_SEED), exhaustive enumeration of small finite sub-domains, pinned regression cases, and (thorough tier, C03/C14/C15/C17/C18) atheris 3.1 coverage-guided campaigns driving the same properties through fuzz_one_input; cases are plain JSON and double as replay files"}],
     "checks": checks,
     "not_applicable": na,
-    "notes": "See DESIGN.md. Known genuine defects are listed in KNOWN_FINDINGS.txt (known:/fixed: lines).",
+    "notes": "See DESIGN.md. Known genuine defects are listed in KNOWN_FINDINGS.txt (known:/fixed: lines). Sensitivity of every check was measured against hand-written mutants (DESIGN 10, tools/muttest.py) and against independently seeded changes kept under seeded/ (DESIGN 11, seeded/INDEX.md, tools/seedtest.py).",
 }
 json.dump(man, open(os.path.join(HERE, "MANIFEST.json"), "w"), indent=1)
 print("claimed:", sorted(CHECKS), "not claimed:", [x["property_id"] for x in na])
